@@ -5,9 +5,14 @@
 # Writes /verif/seeded/<ID><a|b>/{patch.diff,demo files,meta.json,verify.log}.
 set -u
 id=$1; v=$2; shift 2
-# SEEDROUND=r2 reads /tmp/seed/<ID>r2.out/<a|b> and stores the result as <ID>c / <ID>d
+# SEEDROUND=r2|r3|r4|r5 reads /tmp/seed/<ID><round>.out/<a|b> and stores the result as <ID>c/d, e/f, g/h, i/j
 dv=$v
-if [ "${SEEDROUND:-}" = r2 ]; then case $v in a) dv=c;; b) dv=d;; esac; fi
+case "${SEEDROUND:-}" in
+  r2) case $v in a) dv=c;; b) dv=d;; esac;;
+  r3) case $v in a) dv=e;; b) dv=f;; esac;;
+  r4) case $v in a) dv=g;; b) dv=h;; esac;;
+  r5) case $v in a) dv=i;; b) dv=j;; esac;;
+esac
 src=/tmp/seed/$id${SEEDROUND:-}.out/$v
 dst=/verif/seeded/$id$dv
 wt=/tmp/seedv-$id$dv
